@@ -76,7 +76,7 @@ def check(run):
     _r2(run, ci)
     _r3(run, prog, ci)
     from ..cachekey import check_caches
-    check_caches(run, [ci.mod], 'C17-K')
+    check_caches(run, [ci.mod], 'C17-K', prog=prog)
 
 
 def _poly_eval(N):
